@@ -28,7 +28,8 @@ LEAN_TARGETS = ["SkaModel.Props.C06", "SkaModel.Gen.RngC06"]
 LEVEL = "proof"
 RULE = (
     "cases: (exported class, configuration with an integer random_state, candidate mode, data seed); each case = a fresh "
-    "object run under three np.random.seed values + a twin + (pool) the same query repeated on one object; outputs "
+    "object run under three np.random.seed values + a twin + (pool) the same query repeated on one object + (estimators) an "
+    "object fitted/asked twice before vs a fresh twin after the same fit, on plain, label-free (all ties) and far-away test data; outputs "
     "(indices and utilities / decisions / predictions) compared exactly. non-trivial = the call returned a result; "
     "distinct = distinct (class, configuration, mode, seed, tied-data flag)"
 )
@@ -62,17 +63,21 @@ def key_of(case, f):
     return f"C06/{case.cls_name}.{m}/{f['kind']}"
 
 
-def run_case(ctx, case, seed, observed, mode=None, tie=False):
+def run_case(ctx, case, seed, observed, mode=None, tie=False, reuse=None):
     if case.family in ("pool", "pool_ma"):
         findings, info = oracles.repro_pool(case, mode, seed, tie_data=tie)
     elif case.family == "stream":
         findings, info = oracles.repro_stream(case, seed)
     elif case.family == "budget":
         findings, info = oracles.repro_budget(case, seed)
+    elif reuse is not None:
+        findings, info = oracles.repro_estimator_reuse(case, seed, tie_level=reuse)
     else:
         findings, info = oracles.repro_estimator(case, seed)
     ok = "raised" not in info
-    ctx.case((case.key, mode, seed, tie), ok, sample=dict(case=case.key, mode=mode, seed=seed, tied=tie, findings=[f["kind"] for f in findings]))
+    ctx.case((case.key, mode, seed, tie, reuse), ok, sample=dict(case=case.key, mode=mode, seed=seed, tied=tie, reuse=reuse, findings=[f["kind"] for f in findings]))
+    if reuse is not None:
+        ctx.count(f"reused_object_vs_twin_tie{reuse}")
     ctx.count("family_" + case.family)
     if tie:
         ctx.count("tied_data_runs")
@@ -84,7 +89,7 @@ def run_case(ctx, case, seed, observed, mode=None, tie=False):
     for f in findings:
         observed.setdefault(case.cls_name, set()).add(f["kind"])
         ctx.violate(key_of(case, f), f"{case.cls_name} [{case.config}{', candidates=' + mode if mode else ''}{', tied data' if tie else ''}]: {f['what']}",
-                    dict(case=case.key, mode=mode, seed=seed, tie=tie, finding=f["kind"]))
+                    dict(case=case.key, mode=mode, seed=seed, tie=tie, reuse=reuse, finding=f["kind"]))
 
 
 def correspond(ctx):
@@ -108,6 +113,10 @@ def correspond(ctx):
                         run_case(ctx, case, seed, observed, mode=mode, tie=True)
             else:
                 run_case(ctx, case, seed, observed)
+                if case.family in ("classifier", "classifier_ma", "regressor"):
+                    # re-used object vs fresh twin: plain data, no labels (every prediction a tie), far test points
+                    for lvl in (0, 1, 2):
+                        run_case(ctx, case, seed, observed, reuse=lvl)
     ctx.notes["dynamic_seconds"] = round(time.time() - t0, 1)
     compare_with_summaries(ctx, g, observed)
 
@@ -166,7 +175,7 @@ def replay(payload):
         print("unknown case", r.get("case"))
         return 2
     ctx = vlib.Ctx(PROP, "quick", 0)
-    run_case(ctx, case, r["seed"], {}, mode=r.get("mode"), tie=r.get("tie", False))
+    run_case(ctx, case, r["seed"], {}, mode=r.get("mode"), tie=r.get("tie", False), reuse=r.get("reuse"))
     for v in ctx.violations:
         print("REPRODUCED:", v["key"], "-", v["what"])
     if not ctx.violations:
